@@ -86,6 +86,9 @@ def run(ctx):
         netcheck.explore_scenarios(ctx, "c12", sc3, 3, "d3", sig_extra=sig_extra)
     if len(agg["outcomes"]) < 3:
         raise core.HarnessError("vacuous exploration")
+    from checks import c12_gaps
+
+    c12_gaps.run_gaps(ctx)
     ctx.cov["rule"] = (
         "deviation-bounded DFS over NetSim (pacing enabled): all schedules with <= d deviations (drop, "
         "duplicate, delay 30 ms / 1.5 s, timers 1 us / 20 ms late) of bidirectional scripts long enough "
@@ -100,6 +103,15 @@ def run(ctx):
 
 
 def replay(ctx, obj):
+    if obj["replay"].get("part") == "gaps":
+        from checks import c12_gaps
+
+        r = c12_gaps.run_pattern((obj["replay"]["role"], [tuple(obj["replay"]["pattern"])]))
+        for sig, what, rp in r["viol"]:
+            print("VIOLATION property=C12 replay=(replayed): %s" % what)
+            return 1
+        print("no violation on replay")
+        return 0
     v = netcheck.replay("c12", obj)
     if v:
         print("VIOLATION property=C12 replay=(replayed): %s" % v[1])
